@@ -30,6 +30,7 @@ import (
 
 	ps "github.com/prometheus/client_golang/prometheus"
 	"github.com/youzan/ZanRedisDB/common"
+	"github.com/youzan/ZanRedisDB/internal/verifhook"
 	"github.com/youzan/ZanRedisDB/metric"
 	"github.com/youzan/ZanRedisDB/pkg/fileutil"
 	"github.com/youzan/ZanRedisDB/pkg/idutil"
@@ -333,6 +334,7 @@ func (rc *raftNode) replayWAL(snapshot *raftpb.Snapshot, forceStandalone bool) e
 	} else {
 		atomic.StoreInt32(&rc.replayRunning, 0)
 	}
+	verifhook.Crash("start.replayed")
 	rc.Infof("replaying WAL (%v) at lastIndex : %v", len(ents), rc.lastIndex)
 	return nil
 }
@@ -385,6 +387,7 @@ func (rc *raftNode) startRaft(ds DataStorage, standalone bool) error {
 		if err == snap.ErrNoSnapshot || raft.IsEmptySnap(*snapshot) {
 			rc.Infof("loading no snapshot \n")
 			rc.ds.CleanData()
+			verifhook.Crash("start.cleaned")
 		} else {
 			rc.Infof("loading snapshot at term %d and index %d, snap: %v",
 				snapshot.Metadata.Term,
@@ -397,6 +400,7 @@ func (rc *raftNode) startRaft(ds DataStorage, standalone bool) error {
 					rc.Errorf("failed to restore from snapshot: %s", err)
 					return err
 				}
+				verifhook.Crash("start.restored")
 			} else if err == errNobackupAvailable {
 				if common.IsConfSetted(common.ConfIgnoreStartupNoBackup) {
 					rc.Infof("ignore failed at startup for no any backup from anyware")
@@ -419,6 +423,7 @@ func (rc *raftNode) startRaft(ds DataStorage, standalone bool) error {
 		}
 	} else {
 		rc.ds.CleanData()
+		verifhook.Crash("start.cleaned")
 		w, _, _, _, err := rc.openWAL(nil, false)
 		if err != nil {
 			return err
@@ -675,6 +680,7 @@ func (rc *raftNode) beginSnapshot(snapTerm uint64, snapi uint64, confState raftp
 	if err != nil {
 		return err
 	}
+	verifhook.Crash("snap.backup_started")
 	rc.Infof("get snapshot object done: %v, state: %v", snapi, confState.String())
 
 	rc.wgAsync.Add(1)
@@ -696,21 +702,25 @@ func (rc *raftNode) beginSnapshot(snapTerm uint64, snapi uint64, confState raftp
 			rc.Errorf("create snapshot at index %d failed: %v", snapi, err)
 			return
 		}
+		verifhook.Crash("snap.created")
 		// SaveSnap saves the snapshot to file and appends the corresponding WAL entry.
 		if err := rc.persistStorage.SaveSnap(snap); err != nil {
 			rc.Errorf("save snapshot at index %v failed: %v", snap.Metadata, err)
 			return
 		}
+		verifhook.Crash("snap.saved")
 		err = rc.persistStorage.Sync()
 		if err != nil {
 			rc.Errorf("failed to sync wal: %s", err)
 			return
 		}
+		verifhook.Crash("snap.synced")
 		if err = rc.persistStorage.Release(snap); err != nil {
 			rc.Errorf("failed to release wal: %s", err)
 			return
 		}
 		// update the latest snapshot index for statemachine
+		verifhook.Crash("snap.released")
 		rc.ds.UpdateSnapshotState(snap.Metadata.Term, snap.Metadata.Index)
 
 		compactIndex := uint64(1)
@@ -725,6 +735,7 @@ func (rc *raftNode) beginSnapshot(snapTerm uint64, snapi uint64, confState raftp
 			rc.Errorf("compact log at index %v failed: %v", compactIndex, err)
 			return
 		}
+		verifhook.Crash("snap.compacted")
 		rc.Infof("compacted log at index %d", compactIndex)
 	}()
 	return nil
@@ -1050,12 +1061,14 @@ func (rc *raftNode) processReady(rd raft.Ready) {
 
 	start := time.Now()
 	// TODO: save entries, hardstate and snapshot should be atomic, or it may corrupt the raft
+	verifhook.Crash("ready.before_persist")
 	if err := rc.persistRaftState(&rd); err != nil {
 		rc.Errorf("raft save states to disk error: %v", err)
 		go rc.ds.Stop()
 		<-rc.stopc
 		return
 	}
+	verifhook.Crash("ready.wal_saved")
 	cost := time.Since(start)
 	if cost >= raftSlow/2 {
 		rc.Infof("raft persist state slow: %v, cost: %v", len(rd.Entries), cost)
@@ -1081,6 +1094,7 @@ func (rc *raftNode) processReady(rd raft.Ready) {
 		}
 		raftDone <- struct{}{}
 		rc.raftStorage.ApplySnapshot(rd.Snapshot)
+		verifhook.Crash("ready.snap_applied")
 		rc.Infof("raft applied incoming snapshot done: %v", rd.Snapshot.String())
 		if rd.Snapshot.Metadata.Index >= rc.lastIndex {
 			if !rc.IsReplayFinished() {
@@ -1094,6 +1108,7 @@ func (rc *raftNode) processReady(rd raft.Ready) {
 	}
 	cost2 := time.Since(start)
 	rc.raftStorage.Append(rd.Entries)
+	verifhook.Crash("ready.appended")
 	cost3 := time.Since(start) - cost2
 	if cost3 > raftSlow/2 {
 		rc.Infof("raft append commit entries slow: %v, cost: %v", len(rd.Entries), cost3)
@@ -1131,6 +1146,7 @@ func (rc *raftNode) processReady(rd raft.Ready) {
 	} else {
 		raftDone <- struct{}{}
 	}
+	verifhook.Crash("ready.before_advance")
 	rc.node.Advance(rd)
 }
 
@@ -1147,6 +1163,7 @@ func (rc *raftNode) persistRaftState(rd *raft.Ready) error {
 		rc.Infof("raft persist snapshot meta done : %v", rd.Snapshot.String())
 		// update the latest snapshot index for statemachine
 		rc.ds.UpdateSnapshotState(rd.Snapshot.Metadata.Term, rd.Snapshot.Metadata.Index)
+		verifhook.Crash("ready.snap_saved")
 	}
 	if err := rc.persistStorage.Save(rd.HardState, rd.Entries); err != nil {
 		rc.Errorf("raft save wal error: %v", err)
